@@ -1073,43 +1073,3 @@ func c06Retention(c *core.Ctx) {
 		whoMayCall(c, rule, "instance."+w.fn, mapOf(m), nil, w.allow)
 	}
 }
-
-// siblingExplore: experimental comparison of another ported package with its
-// reference (not registered in the manifest; used to size a possible rule).
-func siblingExplore(c *core.Ctx, rule, nodePkg, specPkg string) {
-	nodeFns, specFns := map[string]*ssa.Function{}, map[string]*ssa.Function{}
-	for _, f := range c.P.SourceFuncs(nodePkg) {
-		if f.Parent() == nil && f.Synthetic == "" {
-			nodeFns[c06FnKey(f)] = f
-		}
-	}
-	for _, f := range c.P.SourceFuncs(specPkg) {
-		if f.Parent() == nil && f.Synthetic == "" {
-			specFns[c06FnKey(f)] = f
-		}
-	}
-	var names []string
-	for k := range nodeFns {
-		names = append(names, k)
-	}
-	sort.Strings(names)
-	for _, k := range names {
-		if sf := specFns[k]; sf != nil {
-			c06CompareRule(c, rule, k, nodeFns[k], sf)
-		} else {
-			c.OK(rule, "node-only|"+k, c.P.Pos(nodeFns[k].Pos()), "no sibling")
-		}
-	}
-}
-
-func init() {
-	register(&Check{
-		Prop: "X06", Pkgs: []string{"./protocol/v2/ssv/runner/...", "./protocol/v2/qbft/controller/..."},
-		Explain: "experimental sibling exploration (not a claimed check)",
-		Run: func(c *core.Ctx) {
-			siblingExplore(c, "X06-runner", ssv+"protocol/v2/ssv/runner", spec+"ssv")
-			siblingExplore(c, "X06-controller", ssv+"protocol/v2/qbft/controller", spec+"qbft")
-		},
-		Setup: func(e *ens.Engine) { qbftSetup(e); e.Expand = nil; e.MaxDepth = 0 },
-	})
-}
